@@ -358,9 +358,15 @@ impl Indexable for ast::MultiClass {
         let multiclass_id = ctx.symbol_map.add_multiclass(multiclass);
 
         ctx.scopes.push(ScopeKind::Multiclass(multiclass_id));
-        self.template_arg_list()?.index(ctx);
-        self.parent_class_list()?.index(ctx);
-        self.statement_list()?.index(ctx);
+        if let Some(template_arg_list) = self.template_arg_list() {
+            template_arg_list.index(ctx);
+        }
+        if let Some(parent_class_list) = self.parent_class_list() {
+            parent_class_list.index(ctx);
+        }
+        if let Some(statement_list) = self.statement_list() {
+            statement_list.index(ctx);
+        }
         ctx.scopes.pop();
 
         None
